@@ -13,7 +13,7 @@ TIERS = {
     "C06": {"quick": 640, "batch": 20, "thorough_s": 900, "thorough_max": 400_000},
     "C07": {"quick": 480, "batch": 15, "thorough_s": 600, "thorough_max": 400_000},
     "C09": {"quick": 480, "batch": 15, "thorough_s": 1200, "thorough_max": 400_000},
-    "C10": {"quick": 320, "batch": 10, "thorough_s": 1200, "thorough_max": 100_000},
+    "C10": {"quick": 336, "batch": 10, "thorough_s": 1200, "thorough_max": 100_000},
     "C11": {"quick": 800, "batch": 25, "thorough_s": 900, "thorough_max": 400_000},
     "C12": {"quick": 320, "batch": 10, "thorough_s": 900, "thorough_max": 200_000},
 }
